@@ -3,8 +3,8 @@
    Epochs are Julian dates x = jd1 + jd2 in Q (days); the specification model S is Model/C01_Scales.v with all
    quirks off (exact arithmetic, table/constants/graph regenerated from the source on every run). *)
 From Coq Require Import ZArith QArith Qabs Bool List String.
-From Verif Require Import Lib.Dyadic Gen.C01_TaiUtc Gen.C01_Const Gen.C01_Graph Spec.C01_IersTaiUtc
-     Model.C01_Scales Proofs.C01_Scales.
+From Verif Require Import Lib.Dyadic Gen.C01_TaiUtc Gen.C01_Const Gen.C01_Graph Gen.C01_Hops Spec.C01_IersTaiUtc
+     Model.C01_Scales Proofs.C01_Scales Proofs.C01_Paths Proofs.C01_Code.
 Import ListNotations.
 Open Scope Q_scope.
 
@@ -123,15 +123,46 @@ Theorem two_hop_path_independent_exact : forall a b c x y z w, In a scales -> In
 Proof. exact path_exact_lemma. Qed.
 Print Assumptions two_hop_path_independent_exact.
 
-(* UTC as the intermediate scale, starting from a TAI instant that is the image of a UTC instant of the domain:
-   TAI -> UTC -> C versus TAI -> C within 9 ns for every C.
-   PARTIAL: the same for A = gps, tt, tcg follows with hop_inverse_exact (A -> tai is an exact bijection) but is not assembled. *)
-Theorem two_hop_path_independent_partial : forall c r n u y z w, In c scales ->
-  adjacent table r n -> rt_dom r n u ->
-  to_scale "tai" "utc" (utc2tai u) = Some y -> to_scale "utc" c y = Some z -> to_scale "tai" c (utc2tai u) = Some w ->
-  Qabs (z - w) <= eps_via.     (* 9 ns *)
-Proof. exact via_utc_from_tai_lemma. Qed.
-Print Assumptions two_hop_path_independent_partial.
+(* error of a route = error of its first part scaled by the rest (constant hops: factor 1, exact translations;
+   TT -> TCG: factor 1/(1-L_G); TCG -> TT: factor 1-L_G) *)
+Theorem hop_error_compose : forall k1 k2 f g, 0 <= k2 -> lip k1 f -> lip k2 g -> lip (k2 * k1) (fun x => g (f x)).
+Proof. exact Proofs.C01_Paths.hop_error_compose. Qed.
+Print Assumptions hop_error_compose.
+
+Theorem hop_types :
+  lip 1 gps2tai /\ lip 1 tai2gps /\ lip 1 tai2tt /\ lip 1 tt2tai /\
+  lip k_tcg tt2tcg /\ lip (1 - L_G) tcg2tt /\ k_tcg == 1 / (1 - L_G).
+Proof. exact hop_types_lemma. Qed.
+Print Assumptions hop_types.
+
+(* the computable domain utc_ok (Model) contains every instant of rt_dom of every row with a successor, and gives the
+   two round-trip bounds: 4 ns back in UTC, 8 ns back in TAI.  What utc_ok leaves out of 1961-01-01 .. 9999-12-30:
+   the first and last microsecond of each pre-1972 drift row (nine of their starts are the stepped boundaries of finding
+   c01_inverse_drift_boundary) and the UTC labels skipped by a downward step (skips_are). TAI instants inside an inserted
+   leap second are not the image of any UTC instant, so they are not in the domain of the theorems below. *)
+Theorem utc_ok_domain :
+  (forall l1 r n l2 u, table = (l1 ++ r :: n :: l2)%list -> rt_dom r n u -> utc_ok u = true) /\
+  (forall u, utc_ok u = true ->
+     Qabs (tai2utc (utc2tai u) - u) <= eps_rt /\
+     Qabs (utc2tai (tai2utc (utc2tai u)) - utc2tai u) <= 2 * eps_rt).
+Proof. split; [exact utc_ok_of_rt_dom|exact utc_ok_bounds]. Qed.
+Print Assumptions utc_ok_domain.
+
+(* PATH INDEPENDENCE, all 125 routes: x is the instant u (UTC Julian date in the domain utc_ok) expressed in scale a;
+   then a -> b -> c and a -> c give the same instant within the property's 10 ns (tol_prop), for every a, b, c *)
+Theorem two_hop_path_independent : forall a b c u x y z w, In a scales -> In b scales -> In c scales ->
+  utc_ok u = true -> to_scale "utc" a u = Some x ->
+  to_scale a b x = Some y -> to_scale b c y = Some z -> to_scale a c x = Some w ->
+  Qabs (z - w) <= tol_prop.
+Proof. exact path_all_lemma. Qed.
+Print Assumptions two_hop_path_independent.
+
+(* A -> B -> A, all 25 pairs, same domain, 10 ns *)
+Theorem roundtrip_all_pairs_10ns : forall a b u x y z, In a scales -> In b scales ->
+  utc_ok u = true -> to_scale "utc" a u = Some x ->
+  to_scale a b x = Some y -> to_scale b a y = Some z -> Qabs (z - x) <= tol_prop.
+Proof. exact roundtrip_all_lemma. Qed.
+Print Assumptions roundtrip_all_pairs_10ns.
 
 (* A -> B -> A: exact when neither is UTC; utc -> B -> utc within 4 ns on the domain *)
 Theorem roundtrip_all_pairs :
@@ -147,6 +178,35 @@ Print Assumptions roundtrip_all_pairs.
 Theorem to_scale_pointwise : forall tbl xs, utc2tai_list tbl xs = map (utc2tai_t tbl) xs.
 Proof. exact utc2tai_list_pointwise. Qed.
 Print Assumptions to_scale_pointwise.
+
+(* arrays (both directions of the table hop as coded with index lists, and every route): converting a permuted / re-indexed
+   array = re-indexing the converted array; element i of the result is the conversion of element i of the input *)
+Theorem array_alignment : forall tbl d xs perm,
+  utc2tai_list tbl (take_idx d xs perm) = take_idx (utc2tai_t tbl d) (utc2tai_list tbl xs) perm /\
+  tai2utc_list tbl (take_idx d xs perm) = take_idx (tai2utc_t tbl d) (tai2utc_list tbl xs) perm /\
+  (forall a b, to_scale_list a b (take_idx d xs perm) = take_idx (to_scale a b d) (to_scale_list a b xs) perm) /\
+  (forall i, nth_error (utc2tai_list tbl xs) i = option_map (utc2tai_t tbl) (nth_error xs i)) /\
+  (forall i, nth_error (tai2utc_list tbl xs) i = option_map (tai2utc_t tbl) (nth_error xs i)).
+Proof. exact array_alignment_lemma. Qed.
+Print Assumptions array_alignment.
+
+(* the CODE of delta_gps_tai / delta_tai_tt / delta_tcg_tt (translated from the source on every run, Gen/C01_Hops.v)
+   returns the property's constants: +-19 s, +-32.184 s, L_G/(1-L_G) (TT-T0) resp. -L_G (TCG-T0), for every epoch *)
+Theorem code_constants_match_spec : forall j1 j2,
+  code_delta_gps_tai "gps" j1 j2 * day_s == tai_minus_gps_s /\
+  code_delta_gps_tai "tai" j1 j2 * day_s == - tai_minus_gps_s /\
+  code_delta_tai_tt "tai" j1 j2 * day_s == tt_minus_tai_s /\
+  code_delta_tai_tt "tt" j1 j2 * day_s == - tt_minus_tai_s /\
+  code_delta_tcg_tt "tt" j1 j2 == L_G_iers2010 / (1 - L_G_iers2010) * (j1 + j2 - T_0_iers2010) /\
+  code_delta_tcg_tt "tcg" j1 j2 == - (L_G_iers2010 * (j1 + j2 - T_0_iers2010)).
+Proof. exact code_constants_lemma. Qed.
+Print Assumptions code_constants_match_spec.
+
+(* every registered edge: its converter returns (jd1, jd2 + delta(x)) where delta is delta_tai_utc (the two table hops) or
+   exactly what the model's hop adds - for every epoch *)
+Theorem code_hops_match_model : hops_translated = true /\ Forall hop_matches edges.
+Proof. exact code_hops_lemma. Qed.
+Print Assumptions code_hops_match_model.
 
 (* quirk: selecting the row with the double jd1+jd2 is NOT the specification: 2016-12-31 23:59:59.99998 UTC *)
 Theorem c01_row_by_float_sum_refuted :
@@ -175,6 +235,14 @@ Example skips_are :
   [1 # 20; 922929 # 250000000000000; 0; 0; 0; 0; 0; 0; 0; 0; 0; 1 # 10; 0; 0; 0; 0; 0; 0; 0; 0;
    0; 0; 0; 0; 0; 0; 0; 0; 0; 0; 0; 0; 0; 0; 0; 0; 0; 0; 0; 0].
 Proof. exact skips_computed. Qed.
+
+(* the domain predicate on concrete instants: half a second before / exactly at the 2017 leap second, 2024-01-01 (open last
+   row), 1965-03-01 12h (drift row) are inside; exactly 1963-11-01 0h (stepped drift boundary) and 0.01 s before 1961-08-01
+   (a UTC label that never existed) are outside *)
+Example utc_ok_examples :
+  utc_ok ((24577535 # 10) + (863995 # 864000)) = true /\ utc_ok (24577545 # 10) = true /\ utc_ok (24603105 # 10) = true /\
+  utc_ok (2438821 # 1) = true /\ utc_ok (4876669 # 2) = false /\ utc_ok ((24375125 # 10) - (1 # 8640000)) = false.
+Proof. repeat split; vm_compute; reflexivity. Qed.
 
 Example leap_second_2016 :
   (* 2016-12-31 23:59:59.5 UTC -> 36 s; 2017-01-01 00:00:00 UTC -> 37 s; 1965-03-01 0h -> 3.716594 s; J2000 TT -> TCG-TT *)
